@@ -113,7 +113,7 @@ CHECKS.update({
         'Proved core (not claimed as the level): the matrices the criteria test are the partial transposes / realignments / reduction operators of a symbolic rho; the bipartition enumeration of the generalized PPT test is complete and duplicate-free; the verdicts of is_ppt / check_reduction_witness / is_generalized_ppt are exactly the conjunction of the PSD-oracle answers, resp. "every nuclear norm <= 1+1e-10" (every oracle answer pattern enumerated).',
    note=EXPL_NOTE, tech=TECH + 'here only for the index-algebra core; deciding part: run-time contract evaluation on separable states (bounded stand-in)'),
  'C06': dict(level='exploration', ref='DESIGN.md §7 C06',
-   text='Bounded: both-sides threshold probes (beta*(1-1e-6) inside, beta*(1+1e-6) outside) of get_density_matrix_boundary / get_ppt_boundary along random rays and states, batched == per-item, nesting beta_CHA <= beta_(k+1)-ext <= beta_k-ext <= beta_PPT <= beta_DM up to 1e-4, inner-model states at arbitrary parameters accepted by the outer tests; call histories over orderings of the same dimensions. '
+   text='Bounded: both-sides threshold probes (beta*(1-1e-6) inside, beta*(1+1e-6) outside) of get_density_matrix_boundary / get_ppt_boundary along random rays and states, batched == per-item, nesting beta_CHA <= beta_(k+1)-ext <= beta_k-ext <= beta_PPT <= beta_DM up to 1e-4, inner-model states (PureBosonicExt, the convex-hull gradient model AutodiffCHAREE for both orderings of a non-square pair) at arbitrary parameters accepted by the outer tests; call histories over orderings of the same dimensions. '
         'Proved core: hf_interpolate_dm places the state at exactly the requested Gell-Mann distance (identity in symbolic rho, beta); get_ppt_boundary hands exactly the partial transpose to get_density_matrix_boundary; get_density_matrix_boundary, with numpy.linalg.eigvalsh replaced by its assumed contract (ascending symbolic eigenvalues of the matrix it is given), calls it once on the state itself and returns exactly the lengths at which the extreme eigenvalue of the ray I/N + beta (rho - I/N)/norm vanishes, all others being non-negative there (QF_NRA), N=2..4 (6).',
    note=EXPL_NOTE + ' cvxpy SolverError in this sandbox (the CHA LP; its own test is in the always-failing baseline set) is counted as skipped, never as a violation.', tech=TECH + 'here only for the interpolation / delegation core; deciding part: run-time contract evaluation along seeded rays (bounded stand-in)'),
  'C13': dict(level='exploration', ref='DESIGN.md §7 C13',
